@@ -93,7 +93,17 @@ impl Completions {
         }
 
         // Let the kernel write more completions.
+        #[cfg(a10_verif)]
+        crate::verif::point(
+            crate::verif::Point::CqHeadStoreBefore,
+            self.entries_head.as_ptr(),
+        );
         unsafe { (&*self.entries_head.as_ptr()).store(head, Ordering::Release) };
+        #[cfg(a10_verif)]
+        crate::verif::point(
+            crate::verif::Point::CqHeadStoreAfter,
+            self.entries_head.as_ptr(),
+        );
 
         Ok(())
     }
